@@ -18,7 +18,7 @@ from gcmpy.motif_generators.clique_motif import clique_motif
 from gcmpy.names.joint_degree_names import JointDegreeNames
 from gcmpy.names.gcm_algorithm_names import GCMAlgorithmNames
 
-from .. import simrandom, stats
+from .. import simrandom, stats, interesting
 from ..engine import describe_exc, h64, run_seed
 from ..simrandom import Source, _RealRandom
 
@@ -69,9 +69,25 @@ def gen_dist(prng, ntop, nkeys):
 
 def generate(prng, tier, index):
     big = tier == "thorough" or prng.random() < 0.08
-    ntop = prng.randrange(1, 4)
+    ntop = prng.randrange(1, 4) if prng.random() > 0.03 else prng.randrange(4, 8)
     nkeys = prng.randrange(1, 6)
     keys, w = gen_dist(prng, ntop, nkeys)
+    if prng.random() < 0.03:
+        # many keys (bisect over a long cumulative table) with degrees drawn from a wider range
+        nk = interesting.size(prng, 6, 130)
+        seen = set()
+        keys = []
+        while len(keys) < nk:
+            k = tuple(prng.randrange(0, 12) for _ in range(ntop))
+            if k not in seen:
+                seen.add(k)
+                keys.append(list(k))
+            if len(seen) >= 12 ** ntop:
+                break
+        w = [prng.choice((1, 2, 0.5, 1e-9, 3.0)) for _ in keys]
+    if prng.random() < 0.04:
+        # boundary weights: denormals, tiny, huge (kept far from float overflow of the running total)
+        w = [prng.choice((5e-324, 1e-300, 2.0 ** -53, 1e-17, 1.0, 1e9, 1e290)) for _ in keys]
     sizes = [prng.choice((1, 2, 2, 3, 3, 4, 5)) for _ in range(ntop)]
     if prng.random() < 0.06:       # unusually large motif size / degrees / N (numeric edge cases)
         sizes[prng.randrange(ntop)] = prng.choice((7, 16, 49, 64, 100, 128))
@@ -91,7 +107,7 @@ def generate(prng, tier, index):
         if len({tuple(k) for k in keys}) != len(keys):
             keys = [[k2 + i for k2 in k] for i, k in enumerate(keys)]
     sc = {"variant": variant, "keys": keys, "weights": w, "sizes": sizes,
-          "N": prng.randrange(1, 61 if big else 16) if prng.random() > 0.02 else prng.randrange(100, 400), "policy": pol, "via": prng.choice(("direct", "dispatch")),
+          "N": prng.randrange(1, 61 if big else 16) if prng.random() > 0.03 else interesting.size(prng, 1, 1025), "policy": pol, "via": prng.choice(("direct", "dispatch")),
           "samples": prng.choice((1, 1, 2, 3))}
     if variant == "faults":
         sc["abort_at"] = prng.randrange(0, sc["N"] + 4)
